@@ -73,6 +73,25 @@ CHECKS["C12"] = dict(
          "Auto computations. Non-bytes input => ValueError.",
     design="4/C12", technique="symbolic execution of failing unpack/pack paths vs reference reject-path oracle, CrossHair/z3")
 
+CHECKS["C02"] = dict(
+    text="Bounded symbolic model checking: consistent value assignments are generated symbolically as the reference parse of a symbolic "
+         "string (so lengths, counts, optional-presence and delimiter-free bodies hold by construction and every consistent assignment "
+         "whose encoding fits the bound is covered); the packet is built by constructor and by attribute assignment; z3 decides that "
+         "pack() equals the reference encoder's in-order layout, that unpack(pack()) succeeds, consumes everything and yields equal "
+         "values, and that assert_consistency() is True.",
+    design="4/C02", technique="symbolic execution of constructor+pack+unpack vs reference encoder, values from symbolic reference parse, CrossHair/z3")
+CHECKS["C19"] = dict(
+    text="Bounded symbolic model checking: for every catalogue declaration (plus declarations with user defaults and nested prototype "
+         "defaults) and EVERY subset of the first <=5 value fields overridden by keyword with symbolic values, z3 decides that named "
+         "fields read back the given value and all others the declared default (0, NULs of declared size, b'', fresh prototype copy, "
+         "given/empty list, None/given), that defaults are not shared objects, and that pack() is the reference encoding of those values.",
+    design="4/C19", technique="symbolic execution of Packet.__init__/field.init + pack vs declared-default table and reference encoder, CrossHair/z3")
+CHECKS["C20"] = dict(
+    text="Bounded symbolic model checking: for catalogue declarations (emphasis on at/shift/aligned/class align/Em) x {generic, generated}: "
+         "two parses of the same symbolic bytes are ==, != is its negation, repr() returns, comparison with another class / non-packets is "
+         "False, none raises; changing any one value-bearing field (also one level down) by a symbolic non-zero delta makes them unequal.",
+    design="4/C20", technique="symbolic execution of Packet.__eq__/__repr__ over symbolic parses, CrossHair/z3")
+
 NA_REASON = "check not built yet in this round (planned: DESIGN.md section 4); no claim is made"
 
 
